@@ -1101,3 +1101,34 @@ class AsyncConnectionKind(FnCheck):
         ex.oblige(st, 'https_base_url_iff_context', z3.And(
             z3.Implies(self.has.e, z3.PrefixOf(z3.StringVal('https://'), url.e)),
             z3.Implies(z3.Not(self.has.e), z3.PrefixOf(z3.StringVal('http://'), url.e))) if url.kind == 'str' else z3.BoolVal(False))
+
+
+from contracts import C17 as _c17   # noqa: E402
+
+
+@register
+class AsyncClientNeverFollowsRedirects(_c17.AsyncClientRequestFraming):
+    id = 'C19.async_client_never_follows_redirects'
+    prop = 'C19'
+    replay_fn = 'C19:redirect'
+    replay_without_model = True
+    doc = ('SoapClientAsync.async_post_message_to hands the request to the aiohttp session with allow_redirects=False: '
+           'a peer (e.g. the event sink of a subscriber) answering "307 Location: http://..." cannot make a provider '
+           'that is configured with TLS re-send the message over a plain connection (aiohttp follows redirects by '
+           'default; the connector\'s ssl context only applies to https urls). The synchronous client is built on '
+           'http.client, which never follows redirects (C19.no_connection_outside_the_soap_clients)')
+
+    def concretize(self, vc, model):
+        return {}
+
+    def post(self, ex, st0, st, outcome, b):
+        kw = st.ghost.get('c:post_kwargs')
+        if kw is None:
+            return
+        v = kw.get('allow_redirects')
+        ok = v is not None and v.kind == 'bool' and z3.is_false(z3.simplify(v.e))
+        ex.oblige(st, 'redirects_are_not_followed', z3.BoolVal(bool(ok)))
+
+    def finish(self, ex, st0, outcomes, b):
+        names = {o.name for o in ex.ctx.obligations}
+        ex.oblige(st0, 'request_is_handed_to_the_session', z3.BoolVal('redirects_are_not_followed' in names))
